@@ -36,6 +36,16 @@ func uploadScenario(fault string, size int, chunk int) string {
 		case "partial":
 			io.CopyN(io.Discard, r.Body, int64(size/2))
 			w.WriteHeader(http.StatusInsufficientStorage)
+		case "partial-json", "partial-bin":
+			// a refusal whose body is neither XML nor text: the client must still release the connection
+			io.CopyN(io.Discard, r.Body, int64(size/2))
+			if fault == "partial-json" {
+				w.Header().Set("Content-Type", "application/json")
+			} else {
+				w.Header().Set("Content-Type", "application/octet-stream")
+			}
+			w.WriteHeader(http.StatusInsufficientStorage)
+			w.Write([]byte(`{"error":"quota exceeded","detail":"` + strings.Repeat("x", 3000) + `"}`))
 		case "drop":
 			io.CopyN(io.Discard, r.Body, int64(size/3))
 			if hj, ok := w.(http.Hijacker); ok {
@@ -59,7 +69,8 @@ func uploadScenario(fault string, size int, chunk int) string {
 		ts.CloseClientConnections()
 		ts.Close()
 	}()
-	hc := &http.Client{Transport: &http.Transport{}}
+	// one connection per host: a connection the library fails to release blocks the next request
+	hc := &http.Client{Transport: &http.Transport{MaxConnsPerHost: 1}}
 	defer hc.Transport.(*http.Transport).CloseIdleConnections()
 	c, err := webdav.NewClient(hc, ts.URL)
 	if err != nil {
@@ -109,6 +120,25 @@ func uploadScenario(fault string, size int, chunk int) string {
 	case <-time.After(15 * time.Second):
 		return "hang"
 	}
+	// after a refused upload the same client must still be usable (the connection was released)
+	if strings.HasPrefix(fault, "partial") || fault == "early" {
+		again := make(chan string, 1)
+		go func() {
+			w, err := c.Create(context.Background(), "/g")
+			if err != nil {
+				again <- "create-error"
+				return
+			}
+			w.Write([]byte("0123456789"))
+			w.Close()
+			again <- "done"
+		}()
+		select {
+		case <-again:
+		case <-time.After(5 * time.Second):
+			return "second-upload-hangs"
+		}
+	}
 	// no goroutine of the library may outlive the upload
 	hc.Transport.(*http.Transport).CloseIdleConnections()
 	leak := "1"
@@ -123,7 +153,10 @@ func uploadScenario(fault string, size int, chunk int) string {
 		// distinguish library goroutines from net/http housekeeping
 		buf := make([]byte, 1<<20)
 		n := runtime.Stack(buf, true)
-		if !strings.Contains(string(buf[:n]), "go-webdav.(*Client).Create") {
+		// library goroutines, and transport goroutines kept alive by a response body the library never closed
+		// (CloseIdleConnections above ends every connection that was released)
+		st := string(buf[:n])
+		if !strings.Contains(st, "go-webdav.(*Client).Create") && !strings.Contains(st, "net/http.(*persistConn).readLoop") {
 			leak = "0"
 		}
 	}
@@ -132,7 +165,7 @@ func uploadScenario(fault string, size int, chunk int) string {
 
 func famUpload(o *Out, r *RNG, thorough bool) {
 	sizes := []int{0, 4096, 5 << 20, 16 << 20}
-	for _, fault := range []string{"ok", "early", "early2xx", "partial", "drop", "stall"} {
+	for _, fault := range []string{"ok", "early", "early2xx", "partial", "partial-json", "partial-bin", "drop", "stall"} {
 		for _, size := range sizes {
 			chunks := []int{64 << 10}
 			if size == 4096 {
